@@ -1,7 +1,7 @@
 #!/usr/bin/env python3
 """Confirm and evaluate a seeded change delivered by an independent seeder.
 
-  seed.py take <PROP> <worktree> [name]   copy <worktree>/_seed into /verif/seeded/<name or PROP>/
+  seed.py take <PROP> <worktree> [name [subdir]]   copy <worktree>/<subdir or _seed> into /verif/seeded/<name or PROP>/
   seed.py confirm <name> <worktree>        in the (clean) worktree: apply patch.diff, build, run the
                                            existing tests of the touched packages (must pass) and the
                                            demonstration (must fail); revert; demonstration must pass.
@@ -47,9 +47,9 @@ def touched_pkgs(patch):
     return sorted(pk)
 
 
-def take(prop, wt, name=None):
+def take(prop, wt, name=None, sub="_seed"):
     name = name or prop
-    src = os.path.join(wt, "_seed")
+    src = os.path.join(wt, sub)
     if not os.path.isdir(src):
         sys.exit("no _seed in " + wt)
     d = sdir(name)
@@ -84,7 +84,7 @@ def confirm(name, wt):
         rc, out = sh(["git", "ls-files", "--others", "--exclude-standard"], cwd=wt)
         target = None
         for l in out.splitlines():
-            if os.path.basename(l) == f and not l.startswith("_seed/"):
+            if os.path.basename(l) == f and not l.startswith("_seed"):
                 target = l
         if target is None:
             # fall back: package named in the file
@@ -182,7 +182,7 @@ def check(name, props, inrepo=False):
 if __name__ == "__main__":
     a = sys.argv[1:]
     if len(a) >= 3 and a[0] == "take":
-        take(*a[1:4])
+        take(*a[1:5])
     elif len(a) == 3 and a[0] == "confirm":
         confirm(a[1], a[2])
     elif len(a) >= 2 and a[0] == "check":
